@@ -20,8 +20,8 @@ fi
 
 # which binary variant does this check need
 case "$ID" in
-  C11|C13|C20) VARIANT=add ;;
-  C12|C14) VARIANT=full ;;
+  C13|C20) VARIANT=add ;;
+  C11|C12|C14) VARIANT=full ;;
   *) VARIANT=plain ;;
 esac
 
@@ -52,7 +52,7 @@ build() {
   mv -f "$tmp" "$out"
 }
 
-if [ "$VARIANT" != plain ] && [ ! -x "$B/bin/vinstr" ]; then
+if [ "$VARIANT" != plain ] && { [ ! -x "$B/bin/vinstr" ] || [ "$V/vinstr/main.go" -nt "$B/bin/vinstr" ]; }; then
   (cd $V/vinstr && go build -o "$B/bin/vinstr" .) || { echo "BUILD-FAILED vinstr"; exit 2; }
 fi
 if ! build "$VARIANT" 2>"$B/build-$ID.log"; then
